@@ -91,7 +91,11 @@ impl ReaderThreadPool {
         OP: FnOnce(fn(IN) -> R) + Send + 'static,
         IN: FnOnce(&mut HashMap<BucketId, BTreeMap<SegmentId, ReaderSet>>) -> R,
     {
+        #[cfg(feature = "verif")]
+        seglog::verif::point("reader:job+", 0, 0);
         self.pool.spawn(|| {
+            #[cfg(feature = "verif")]
+            let _verif_done = seglog::verif::OnDrop("reader:job-", 0, 0);
             let with_reader = |op: IN| READERS.with_borrow_mut(op);
             op(with_reader)
         })
